@@ -300,6 +300,14 @@ func runC18(cfg *vh.Config) error {
 			prof.FlatDeep = 4
 		case 28:
 			prof.FlatDeep = 5
+		case 9:
+			prof.FlatClash = 1
+		case 19:
+			prof.FlatClash = 2
+		case 29:
+			prof.FlatClash = 3
+		case 39:
+			prof.FlatClash = 4
 		}
 		c := descgen.Generate(r.Fork(fmt.Sprintf("case%d-%d", len(cases), invalid)), prof, deps)
 		if len(cases)%10 == 3 {
